@@ -207,8 +207,15 @@ def stream_micro(ctx, built, ntables, oracle=None, max_rows=120, name="S-micro")
                         if iv.min == nulls[j] or R.random() < 0.5: ivs_.append(iv)
                         else:
                             w = (iv.max - iv.min) or 1.0; ivs_.append(Interval(iv.min, iv.min + w * R.choice([0.5, 1.0, 2.0])))
-                    extra.append(Bucket(tuple(ivs_), R.randint(1, 3)))
+                    extra.append(Bucket(tuple(ivs_), R.choice([0, 1, 1, 2, 3])))      # a bucket of count 0 yields no row
                 buckets = buckets + extra
+            elif ti % 2 == 0 and len(buckets) >= 2:
+                # the released list rescaled down the way a parent rescales its children (`_adjust_counts` floors, so buckets of count 1 fall to 0)
+                import syndiffix.bucket as _B
+                if hasattr(_B, "_adjust_counts"):
+                    buckets = [Bucket(b.intervals, b.count) for b in buckets]
+                    cur = sum(b.count for b in buckets)
+                    _B._adjust_counts(buckets, cur, max(1, cur // R.choice([2, 3, 5])))
             rng = TS.RecRandom(1)
             try:
                 rows = generate_microdata(buckets, cvs, nulls, rng)
@@ -697,7 +704,7 @@ def stream_micro_synth(ctx, built, ncases, oracle=None, name="S-micro-synth"):
             else:
                 w = span * 2.0 ** -R.randint(0, 6); a = dlo + math.floor(R.random() * span / w) * w
                 iv = Interval(a, a + w * R.choice([1.0, 1.0, 0.5]))
-            buckets.append(Bucket((iv,), R.randint(1, 3)))
+            buckets.append(Bucket((iv,), R.choice([0, 1, 1, 2, 3])))
         if kind == "str" and len(buckets) >= 2:     # ranges sharing a lower bound
             b0 = buckets[0].intervals[0]
             buckets.append(Bucket((Interval(b0.min, b0.max + R.choice([1.0, 3.0, 9.0])),), 2))
